@@ -770,6 +770,10 @@ pub mod verif {
         pub fn buffered(&self) -> usize {
             self.buf.len()
         }
+        /// What the framed reader calls when the stream has ended: `Ok(None)` if nothing is left over.
+        pub fn decode_eof(&mut self) -> anyhow::Result<Option<Frame>> {
+            Ok(SyncCodec.decode_eof(&mut self.buf)?.map(Into::into))
+        }
     }
 
     pub const MAX_FRAME: usize = MAX_MESSAGE_SIZE;
